@@ -43,3 +43,71 @@ func (b *Int32) Load() int32                    { sched.Point(); return b.v.Load
 func (b *Int32) Store(x int32)                  { sched.Point(); b.v.Store(x) }
 func (b *Int32) Add(x int32) int32              { sched.Point(); return b.v.Add(x) }
 func (b *Int32) CompareAndSwap(o, n int32) bool { sched.Point(); return b.v.CompareAndSwap(o, n) }
+
+// ---- the rest of the sync/atomic surface (a change to the code under test may start using any of
+// it: the check must then still build and give a verdict) ----
+
+type Uintptr struct{ v atomic.Uintptr }
+
+func (b *Uintptr) Load() uintptr                    { sched.Point(); return b.v.Load() }
+func (b *Uintptr) Store(x uintptr)                  { sched.Point(); b.v.Store(x) }
+func (b *Uintptr) Add(x uintptr) uintptr            { sched.Point(); return b.v.Add(x) }
+func (b *Uintptr) Swap(x uintptr) uintptr           { sched.Point(); return b.v.Swap(x) }
+func (b *Uintptr) CompareAndSwap(o, n uintptr) bool { sched.Point(); return b.v.CompareAndSwap(o, n) }
+
+func (b *Int64) Swap(x int64) int64    { sched.Point(); return b.v.Swap(x) }
+func (b *Uint32) Swap(x uint32) uint32 { sched.Point(); return b.v.Swap(x) }
+func (b *Int32) Swap(x int32) int32    { sched.Point(); return b.v.Swap(x) }
+
+// Pointer is atomic.Pointer[T] with a scheduling point before every operation.
+type Pointer[T any] struct{ v atomic.Pointer[T] }
+
+func (p *Pointer[T]) Load() *T                    { sched.Point(); return p.v.Load() }
+func (p *Pointer[T]) Store(x *T)                  { sched.Point(); p.v.Store(x) }
+func (p *Pointer[T]) Swap(x *T) *T                { sched.Point(); return p.v.Swap(x) }
+func (p *Pointer[T]) CompareAndSwap(o, n *T) bool { sched.Point(); return p.v.CompareAndSwap(o, n) }
+
+// Value is atomic.Value with a scheduling point before every operation.
+type Value struct{ v atomic.Value }
+
+func (p *Value) Load() any                    { sched.Point(); return p.v.Load() }
+func (p *Value) Store(x any)                  { sched.Point(); p.v.Store(x) }
+func (p *Value) Swap(x any) any               { sched.Point(); return p.v.Swap(x) }
+func (p *Value) CompareAndSwap(o, n any) bool { sched.Point(); return p.v.CompareAndSwap(o, n) }
+
+// function forms
+func AddInt32(a *int32, d int32) int32         { sched.Point(); return atomic.AddInt32(a, d) }
+func AddInt64(a *int64, d int64) int64         { sched.Point(); return atomic.AddInt64(a, d) }
+func AddUint32(a *uint32, d uint32) uint32     { sched.Point(); return atomic.AddUint32(a, d) }
+func AddUint64(a *uint64, d uint64) uint64     { sched.Point(); return atomic.AddUint64(a, d) }
+func AddUintptr(a *uintptr, d uintptr) uintptr { sched.Point(); return atomic.AddUintptr(a, d) }
+func LoadInt32(a *int32) int32                 { sched.Point(); return atomic.LoadInt32(a) }
+func LoadInt64(a *int64) int64                 { sched.Point(); return atomic.LoadInt64(a) }
+func LoadUint32(a *uint32) uint32              { sched.Point(); return atomic.LoadUint32(a) }
+func LoadUint64(a *uint64) uint64              { sched.Point(); return atomic.LoadUint64(a) }
+func LoadUintptr(a *uintptr) uintptr           { sched.Point(); return atomic.LoadUintptr(a) }
+func StoreInt32(a *int32, v int32)             { sched.Point(); atomic.StoreInt32(a, v) }
+func StoreInt64(a *int64, v int64)             { sched.Point(); atomic.StoreInt64(a, v) }
+func StoreUint32(a *uint32, v uint32)          { sched.Point(); atomic.StoreUint32(a, v) }
+func StoreUint64(a *uint64, v uint64)          { sched.Point(); atomic.StoreUint64(a, v) }
+func StoreUintptr(a *uintptr, v uintptr)       { sched.Point(); atomic.StoreUintptr(a, v) }
+func SwapInt32(a *int32, v int32) int32        { sched.Point(); return atomic.SwapInt32(a, v) }
+func SwapInt64(a *int64, v int64) int64        { sched.Point(); return atomic.SwapInt64(a, v) }
+func SwapUint32(a *uint32, v uint32) uint32    { sched.Point(); return atomic.SwapUint32(a, v) }
+func SwapUint64(a *uint64, v uint64) uint64    { sched.Point(); return atomic.SwapUint64(a, v) }
+func CompareAndSwapInt32(a *int32, o, n int32) bool {
+	sched.Point()
+	return atomic.CompareAndSwapInt32(a, o, n)
+}
+func CompareAndSwapInt64(a *int64, o, n int64) bool {
+	sched.Point()
+	return atomic.CompareAndSwapInt64(a, o, n)
+}
+func CompareAndSwapUint32(a *uint32, o, n uint32) bool {
+	sched.Point()
+	return atomic.CompareAndSwapUint32(a, o, n)
+}
+func CompareAndSwapUint64(a *uint64, o, n uint64) bool {
+	sched.Point()
+	return atomic.CompareAndSwapUint64(a, o, n)
+}
